@@ -19,7 +19,7 @@ os.makedirs(dst)
 for f in ("patch.diff", "demo.py", "README.md"):
     shutil.copy(os.path.join(src, f), os.path.join(dst, f))
 head = subprocess.run(["git", "-C", "/repo", "rev-parse", "--short", "HEAD"], capture_output=True, text=True).stdout.strip()
-meta = {"id": f"{prop}-{n}", "breaks_property": prop, "base_commit": head, "round": 2,
+meta = {"id": f"{prop}-{n}", "breaks_property": prop, "base_commit": head, "round": int(os.environ.get("SEED_ROUND", "3")),
         "origin": "fresh sub-agent given only the property text (+ the list of features already violated on the unchanged tree and one-line titles of earlier changes) and its own scratch worktree of /repo (no access to /verif)",
         "needs_to_manifest": open(os.path.join(src, "README.md")).read()[:1500],
         "confirmed": {"how": "tools/validate_mutant.sh: demo.py on a clean worktree (exit 0), with the patch (non-zero), full pinned suite with the patch compared with BASELINE.json stable_pass",
